@@ -296,7 +296,9 @@ def cli_dialect_leg(res):
     logic of Model/Cli.lean (theorems C13_cli_out_format_input / _named / _default_policy / _delim_spelling) against the REAL
     run_with_python_csv (query_csv replaced by a recorder)"""
     from common import enc_str
-    delims = [',', ';', ' ', '\t', 'TAB', '\\t', '|', '##', 'a', 'tab', 'T', '  ', ',;', ':', 'TABS']
+    delims = [',', ';', ' ', '\t', 'TAB', '\\t', '|', '##', 'a', 'tab', 'T', '  ', ',;', ':', 'TABS',
+              # every other text is taken literally: non-ASCII separators, backslashes that are not the two-character spelling of a tab
+              '\u00a6', '\u2063', '\u00e9', '\\', '\\x01', '\\n', 'a\\', '\\t\\t', '\\T', '\U0001f600']
     lines = []
     for d in delims:
         for pol in ['~', 'simple', 'quoted', 'quoted_rfc', 'whitespace', 'monocolumn']:
